@@ -151,8 +151,8 @@ def admitOp (fl : Flags) (name : Tok) (w : World) : Effect :=
       | some out =>
         -- `if (force && -1 == unlink(tmp) ...)`
         let removed := fl.force && w.outExists && w.outUnlinkOk
-        if (w.outExists && !removed) || !w.outCreatable then
-          -- open(O_EXCL) fails
+        if (outputOpenExcl && w.outExists && !removed) || !w.outCreatable then
+          -- open(O_WRONLY | O_CREAT | O_EXCL) fails
           { skip := some .openOut, warned := true, oldOutputRemoved := removed }
         else if !w.workOk then
           -- `fail` -> `cleanup()` unlinks the new output; the input stays
